@@ -16,7 +16,9 @@ META = {
              "classify_sound ties the decision to facts extracted from bucket_planner.go, bucket_exec.go, gateway.go, "
              "filter_native.go, filter.go and bucket.go."),
     "note": ("Trusted: Lean kernel; extract/c08.go; harness/c08.go (msgpack bodies are decoded by the real library and compared with "
-             "the text the model reads). Assumed: the ordered index read of the scan route is correct (C07); the bucket's sequential "
+             "the text the model reads). The ordered index read of the scan route is modelled by C07's Spec; for the four index types C08 uses "
+             "(key, creation, update, expiration time) that is Hv.C07.holds_current_nonvalue on the current tree, and the run moves "
+             "timestamps by updates between queries so a stale index would show as a route disagreement. Assumed: the bucket's sequential "
              "maintenance is its specification (exercised by the run); floats are k/4 with |k| small, integers below 2^53 (no NaN/Inf, "
              "no lossy int-float conversion); filters are body-field comparison / IN / emptiness legs; forcing the scan route by "
              "wrapping the filter as the single sub-group of an OR group (planOr bypasses on sub-groups; verified by extract)."),
